@@ -728,8 +728,15 @@ func (fr *Frame) enterLoop(b *ssa.BasicBlock, li *loopInfo, st *State, reach *Te
 		phiIn[phi] = t
 	}
 	invs := fr.invariants(li)
-	if fr.top && len(vc.ct.Each[li.ord]) > 0 {
-		// per-iteration clauses claim something about every index: the loop must be a complete range loop
+	hasRangeIndex := false
+	for _, in := range b.Instrs {
+		if phi, ok := in.(*ssa.Phi); ok && phi.Comment == "rangeindex" {
+			hasRangeIndex = true
+		}
+	}
+	if fr.top && len(vc.ct.Each[li.ord]) > 0 && (hasRangeIndex || vc.ct.Mandatory[li.ord]) {
+		// per-iteration clauses over a range loop claim something about every index: the loop must be a complete range loop
+		// (on other loops an `each` clause is a plain per-iteration assertion; completeness there comes from an accumulator invariant)
 		ok, why := rangeComplete(li)
 		if ok && vc.ct.Mandatory[li.ord] {
 			// the per-iteration clauses justify a statement about the whole array only if no return bypasses the loop
